@@ -36,18 +36,28 @@ type Chunk struct {
 	Type   ChunkType
 }
 
-// isLineComment() returns true if chunk buffer is line comment that start with "#" or "//"
+// isLineComment() returns true if chunk buffer has a line comment that start with "#" or "//"
 func (c *Chunk) isLineComment() bool {
 	if c.Type != Comment {
 		return false
 	}
 
-	prefix := make([]byte, 2)
-	prefix[0] = c.buffer[0]
-	if len(c.buffer) > 1 {
-		prefix[1] = c.buffer[1]
+	// The chunk may hold several comments, e.g. "/* a */ // b": skip the block comments,
+	// the rest of the line is commented out as soon as a line comment starts
+	s := c.buffer
+	for i := 0; i < len(s); i++ {
+		switch {
+		case strings.HasPrefix(s[i:], "/*"):
+			end := strings.Index(s[i+2:], "*/")
+			if end < 0 {
+				return false
+			}
+			i += end + 3
+		case s[i] == '#', strings.HasPrefix(s[i:], "//"):
+			return true
+		}
 	}
-	return string(prefix) != "/*"
+	return false
 }
 
 // ChunkBuffer struct represents limited-line chunked string from configuration.
